@@ -50,9 +50,9 @@ year = 31557600 * second = a
 degC = second; offset: 5 = celsius
 """.strip().splitlines()
 
-ALPHA_T = ["meter", "megameter", "kilomegameter", "ms", "min", "mins", "kilometers", "ks", "kilosecond", "Ma", "megayear", "glass", "glas", "xyzzy", "kilodegC", "inchs", "ins"]
+ALPHA_T = ["Meter", "meter", "megameter", "kilomegameter", "ms", "min", "mins", "kilometers", "ks", "kilosecond", "Ma", "megayear", "glass", "glas", "xyzzy", "kilodegC", "inchs", "ins"]
 DEFINES_T = ["ms = 3 * meter", "kilofoo = 5 * meter = kf", "megameter = 9 * second"]
-ALPHA_D = ["megameter", "kilomegameter", "ms", "min", "mins", "kilometers", "Gs", "Pa", "petayear", "dB", "decibyte", "xyzzy", "cm", "centimeter"]
+ALPHA_D = ["Meter", "megameter", "kilomegameter", "ms", "min", "mins", "kilometers", "Gs", "Pa", "petayear", "dB", "decibyte", "xyzzy", "cm", "centimeter"]
 DEFINES_D = ["ms = 3 * meter", "megameter = 9 * second"]
 
 
@@ -264,6 +264,22 @@ def run_case(acc, block, nblocks):
                 usable = {p + un for p, un in rd if not (p and not M.units[un].is_multiplicative)}
                 if usable == names and (o3[0] != "ok" or o3[1] not in names):
                     acc.violation(["case", "get_name(case_sensitive=False)", "case-variant-not-resolved-to-a-reading", "per-call"], {"string": v}, sorted(names), o3)
+                o4 = call(lambda: sorted(dict(cs.parse_units(v, case_sensitive=False)._units)))
+                if usable == names and (o4[0] != "ok" or len(o4[1]) != 1 or o4[1][0] not in names):
+                    acc.violation(["case", "parse_units(case_sensitive=False)", "case-variant-not-resolved-to-a-reading", "per-call"], {"string": v}, sorted(names), o4)
+            # ... and a per-call request must not outlive the call: the default lookups refuse the variant as before
+            if exp[0] == "undefined":
+                acc.ev(4)
+                for api, fn in (
+                    ("get_name", lambda: cs.get_name(v)),
+                    ("parse_units", lambda: sorted(dict(cs.parse_units(v)._units))),
+                    ("in", lambda: (v in cs) or None),
+                    ("Quantity(str)", lambda: cs.Quantity(1, v) and None),
+                    ("getattr", lambda: getattr(cs, v) and None),
+                ):
+                    o5 = call(fn)
+                    if o5 != ["ok", None] and o5[0] != "exc":
+                        acc.violation(["case", api, "case-variant-accepted-after-a-per-call-request", "case-sensitive"], {"registry": "case_sensitive=True", "string": v, "history": [["get_name", v, "case_sensitive=False"], ["parse_units", v, "case_sensitive=False"]]}, "UndefinedUnitError", o5)
     acc.sample({"clause": "case", "strings": [spell[block].upper(), spell[block].title()]})
 
 
@@ -344,12 +360,14 @@ class NameDriver(explore.Driver):
         ev = []
         for x in self.alpha:
             ev.append(["get_name", x])
-        for x in self.alpha[:6]:
+        for x in self.alpha[:7]:
             ev.append(["parse_units", x])
             if self.full_events:
                 ev.append(["get_symbol", x])
         for d in self.defines:
             ev.append(["define", d])
+        ev.append(["parse_units_ci", "Meter"])
+        ev.append(["get_name_ci", "KILOMETERS"])
         return [tuple(e) for e in ev]
 
     def apply(self, reg, ev):
@@ -362,6 +380,10 @@ class NameDriver(explore.Driver):
             return call(lambda: reg.get_symbol(x))
         if kind == "parse_units":
             return call(lambda: sorted((k, str(v)) for k, v in dict(reg.parse_units(x)._units).items()))
+        if kind == "parse_units_ci":
+            return call(lambda: sorted((k, str(v)) for k, v in dict(reg.parse_units(x, case_sensitive=False)._units).items()))
+        if kind == "get_name_ci":
+            return call(lambda: reg.get_name(x, case_sensitive=False))
         raise core.HarnessError(ev)
 
     def fp(self, reg, hist):
@@ -486,7 +508,8 @@ MANIFEST = {
     "technique": "explicit-state BFS over lookup/define histories on the real registry with fingerprint dedup and a fresh-registry differential oracle, plus exhaustive enumeration of prefix x spelling x plural strings against a name-resolution reference model",
     "text": "States are event histories replayed on a fresh real registry (generated 16-line registry with deliberately colliding spellings: depth 3/4 over 32 events; bundled registry: depth 2/3 over 28 events); "
     "in every reached state each string of the probe alphabet is resolved on its own replayed copy through 6 entry points and must equal the answer of a fresh registry holding the same definitions. "
-    "Independently, all 138k prefix+spelling+plural strings, case variants under case-insensitive lookup, and one-character near-misses are resolved and compared with the R4 reading set (exact spelling "
+    "The event alphabet includes per-call case-insensitive lookups (parse_units / get_name with case_sensitive=False) and the probe alphabet a case variant, so a per-call request that outlives its call is a state difference. "
+    "Independently, all 138k prefix+spelling+plural strings, case variants under case-insensitive lookup (registry-wide and per call, followed by the default lookups through get_name / parse_units / in / Quantity(str) / getattr), and one-character near-misses are resolved and compared with the R4 reading set (exact spelling "
     "first; else prefix x unit exactly once; undefined -> UndefinedUnitError; prefixed offset units refused; canonical name and symbol from the definition), and every defined spelling that also has a prefixed "
     "reading (the places where lazy registration could shadow a definition) is probed after the long form was looked up.",
     "note": "Trusted: R4/R1 reading model; the fingerprint covers _units, _units_casei, _prefixes, _cache, _dimensions, _base_units_cache. Where several non-equivalent readings exist any of them is accepted. "
